@@ -156,6 +156,19 @@ def call_lib(fname, method, n, order, x, extra_args=(), extra_kwds=None, fun=Non
     return np.asarray(der), np.asarray(info.error_estimate)
 
 
+def object_valued(f):
+    def g(x, *a, **k):
+        v = f(x)
+        if not isinstance(v, np.ndarray) or v.ndim == 0:
+            return v
+        out = np.empty(v.shape, dtype=object)
+        flat = v.ravel()
+        for i in range(flat.size):
+            out.flat[i] = flat[i].item()
+        return out
+    return g
+
+
 def bits_equal(a, b):
     """Elementwise: same bit pattern, or NaN at the same position.  a, b: arrays of equal shape."""
     a = np.ascontiguousarray(a)
@@ -199,7 +212,8 @@ class Unit(object):
         """library call with shape check; returns (der, est) or None after recording a violation."""
         self.acc.evaluations += 1
         try:
-            der, est = call_lib(self.fname, self.method, self.n, self.order, x)
+            fun = object_valued(FUNCS[self.fname]) if case.get('layout') == 'object-valued-f' else None
+            der, est = call_lib(self.fname, self.method, self.n, self.order, x, fun=fun)
         except Failed as e:
             vals = set(np.asarray(x, dtype=float).ravel().tolist())
             cond = worst_class(self.cls[u] for u in vals) + '-elements'
@@ -331,6 +345,8 @@ class Unit(object):
             # that position" is a statement about logical positions, so every element must still be bit-identical
             # to its per-position reference
             for lname, xl in layouts_of(x):
+                if lname == 'object-valued-f' and not self.real:
+                    continue      # Python complex arithmetic is not bit-identical to numpy's; real-step methods only
                 out = self.check_array(shape, xl, refs, 'layout', dict(r=r, layout=lname), range(size))
                 acc.case((self.fname, self.method, self.n, self.order, shape, 'layout', lname, r), nontrivial=True,
                          cell=base_cells + ['layout/' + lname], outcome=out, n_eval=0)
@@ -526,6 +542,10 @@ def layouts_of(x):
     out.append(('strided-view', big[..., ::2]))
     out.append(('reversed-view', np.ascontiguousarray(x[::-1])[::-1]))
     out.append(('nested-list', x.tolist()))
+    out.append(('masked-array-nothing-masked', np.ma.array(x)))      # an ndarray subclass with ordinary values
+    # the same array, but the FUNCTION returns its (same) values in an object-dtype array of Python numbers, as a
+    # function built with np.frompyfunc or np.vectorize(..., otypes=[object]) does
+    out.append(('object-valued-f', x))
     return out
 
 
